@@ -10,12 +10,15 @@
 
 use std::collections::BTreeSet;
 
-// Rule R6 (std::cmp::{min, max}) for u32 -- shim/prelude.rs has u64 / i64 / usize.
-impl VerifMinMax for u32 {
-    open spec fn vmm_le(self, other: u32) -> bool { self <= other }
-    fn verif_max_impl(self, other: u32) -> (r: u32) { if self <= other { other } else { self } }
-    fn verif_min_impl(self, other: u32) -> (r: u32) { if self <= other { self } else { other } }
-}
+// `use std::cmp::{max, min}` of bricks/widening.rs, RESTATED for u32 (rule R6 rewrites only the qualified path `std::cmp::min`;
+// vstd cannot give the generic std functions a specification).  The extracted calls `min(a, b)` / `max(a, b)` resolve to these two
+// functions; contract = std documentation ("Compares and returns the minimum / maximum of two values").
+pub fn min(a: u32, b: u32) -> (r: u32)
+    ensures r == (if a <= b { a } else { b }),
+{ if a <= b { a } else { b } }
+pub fn max(a: u32, b: u32) -> (r: u32)
+    ensures r == (if a <= b { b } else { a }),
+{ if a <= b { b } else { a } }
 
 /// R9 target for `A.union(B).cloned().collect::<BTreeSet<String>>()`.
 /// std documentation of `BTreeSet::union`: "Visits the elements representing the union, i.e., all the elements in `self` or
@@ -39,5 +42,12 @@ pub fn verif_br_concat(a: String, b: &String) -> (r: String)
 #[verifier::external_body]
 pub fn verif_br_vec_to_set(v: Vec<String>) -> (r: BTreeSet<String>)
     ensures
-        forall |u: Seq<char>| #[trigger] br_member(r@, u) <==> (exists |i: int| 0 <= i < v@.len() && #[trigger] v@[i]@ == u),
+        forall |u: Seq<char>| #[trigger] br_member(r@, u) <==> br_in_vec(v@, u),
 { v.into_iter().collect() }
+
+/// R9 target for `A == B` on two `&BTreeSet<String>` (std: "two sets are equal if they contain the same elements", elements
+/// compared with String's ==, i.e. by content; vstd has no specification of PartialEq for BTreeSet).
+#[verifier::external_body]
+pub fn verif_br_set_eq(a: &BTreeSet<String>, b: &BTreeSet<String>) -> (r: bool)
+    ensures r == br_set_same(a@, b@),
+{ a == b }
